@@ -192,6 +192,7 @@ type hnode struct {
 	preBlocks  int             // blocks delivered in an earlier life, before Reset
 	failCommit map[int]bool    // block indexes for which the commit callback reports an error after doing its work
 	failed     int
+	retro      int // validator sets registered for a round that already existed (see applyReceipts)
 }
 
 func newNode(d *dag, id int, cache int, badgerDir string) *hnode {
@@ -243,6 +244,12 @@ func (nd *hnode) applyReceipts(rr int, itxs []hg.InternalTransaction) {
 		changed = true
 	}
 	if changed {
+		if nd.store.LastRound() >= rr+6 {
+			// the new set takes effect at a round this node has already created: rounds, witnesses and
+			// votes of that round (and later ones) were computed with the old set, later events of the same
+			// rounds will be computed with the new one
+			nd.retro++
+		}
 		if err := nd.store.SetPeerSet(rr+6, v); err == nil {
 			nd.validators = v
 		}
